@@ -21,6 +21,20 @@ def _unknown_violations(stats):
     return sum(1 for v in stats.violations if v['sig'] not in _known_sigs)
 
 
+# address-space limit of one worker process.  A tree on which some input makes the tool build a value that doubles with every received
+# segment would otherwise have the kernel kill the worker (and a fork pool waits for a killed worker for ever); with the limit the tool
+# gets a MemoryError, which the runner reports like any other exception.
+WORKER_AS_LIMIT = int(os.environ.get('VERIF_WORKER_MEM_MB', '4096')) << 20
+
+
+def _limit_worker():
+    try:
+        import resource
+        resource.setrlimit(resource.RLIMIT_AS, (WORKER_AS_LIMIT, WORKER_AS_LIMIT))
+    except Exception:
+        pass
+
+
 def _run_chunk(args):
     func, chunk, extra = args
     st = Stats()
@@ -67,7 +81,7 @@ def pmap(func, items, extra=(), chunk=None, procs=None, stats=None):
             stats.merge(_run_chunk((func, c, extra)))
         return stats
     ctx = multiprocessing.get_context('fork')
-    with ctx.Pool(procs) as pool:
+    with ctx.Pool(procs, initializer=_limit_worker) as pool:
         done = 0
         for st in pool.imap_unordered(_run_chunk, [(func, c, extra) for c in chunks]):
             stats.merge(st)
